@@ -3,15 +3,50 @@ from helpers import R, E, F
 PROP = dict(
     id="C12",
     level="exploration",
-    level_text="tbd",
-    level_note="tbd",
+    level_text=("Property-based testing of internal/stats (compiled into the package through the overlay): generated "
+                "distribution arguments, degrees of freedom, beta parameters and samples are checked against an independent "
+                "reference (exact rational moments and R8 quantiles via math/big, adaptive Gauss-Kronrod integration of the "
+                "textbook densities, textbook t statistics in 256-bit floats) and against metamorphic laws (range, monotonicity, "
+                "symmetry, reflection, inverse round trip, order independence). Searches for a counterexample over a sampled "
+                "continuous domain; does not prove absence."),
+    level_note=("Trusted: Go standard library math (Lgamma, Exp, Log, Erfc on normal-range arguments), math/big, sort; the reference "
+                "package /verif/harness/lib/refstat (self-tested against closed forms: t CDF for nu=1,2, I_x(1,b), I_x(a,1), "
+                "I_x(2,2), values pinned in golang/perf's own tests). Tolerances are those of DESIGN.md (1e-9 integration and "
+                "inverse round trip, 1e-12 symmetry, 1e-10 reflection, 8*n*eps*scale moments); four are made precise from the "
+                "algorithms' error analysis and stated in comments next to the comparison: monotonicity of the t CDF 1e-13 + nu*eps "
+                "(a power nu/2 of a rounded argument), reflection 1e-10 + 4*eps*L (L = size of the log-terms of the beta prefactor, "
+                "matters only for a,b > 1e3), geometric mean 8*n*eps*max(1,max|ln x|) relative, T/DoF by first-order propagation of "
+                "the moment tolerances; a variance below its own tolerance may be reported as ErrZeroVariance."),
     technique="property-based testing against exact big-number / numerical-integration reference + metamorphic laws",
-    rule="tbd",
-    assumptions=[],
+    rule=("Four rapid units. dist: one distribution (Student-t with nu from integers 1..100, half-integers, reals, log-uniform and "
+          "integer values up to 1e5, edge constants; or normal with grid/real mu and sigma 1e-6..1e6) with 1-8 arguments (grid k/8, "
+          "uniform, 10^[-3,6], 10^[-12,-2], tiny to 1e-320, huge to MaxFloat64, +-Inf) and their mirror images, 0-4 inverse arguments "
+          "(uniform, 10^-k down to subnormal, 1-10^-k, Acklam region edges, 0, 1, outside [0,1]); every fourth case also runs the "
+          "integration oracle (textbook density and the implementation's own PDF) and, for nu>200, the normal limit with first-order "
+          "correction. beta: (a,b)=(nu/2,1/2) with x formed from t in both ways the t CDF forms it, and general a,b in [0.5,5e4] with "
+          "x around the mean, near 0/1 and uniform, always with exact complement 1-x; integration reference for a,b>=1, a+b<=1e4. "
+          "ttest: Welch (2/5), pooled, paired, one-sample on samples of 0-300 values from eight pools (small integers with ties, "
+          "base+relative noise 1..1e-6, constant, mixed magnitudes to 1e60, dyadic grid, 3-significant-digit benchmark-like, few "
+          "distinct values), second sample independent / copy / shifted-rescaled resample; all three alternatives per case. descr: "
+          "samples of 1-500 values from the same pools with magnitudes to 1e300, ascending/descending/random order, Sorted flag set "
+          "only for sorted data, 1-6 percentile arguments (uniform, next to the R8 break points, common levels, 0/1 and beyond), one "
+          "case in six with strictly positive weights (Weight, Mean, Bounds only). Non-trivial = nu non-integer or >100 or an argument "
+          "beyond 10 standard deviations (dist, beta: also a or b >50 or not a half-integer); n>=3 and non-constant first sample "
+          "(ttest, descr). Distinct = distinct case JSON (64-bit FNV), capped at 300000 per shard."),
+    assumptions=[
+        "math.Lgamma, math.Exp, math.Log, math.Log1p, math.Erfc, math.Sinh/Cosh of the Go standard library are accurate to a few ulp on normal-range arguments (used by the reference integrands); math/big is exact",
+        "math.Log of go1.23.5 on amd64 is wrong for subnormal arguments (log_amd64.s: ln(5e-310) = -709.07, true -711.19); GeoMean is therefore checked only on samples whose minimum is a normal float64",
+        "t-test inputs are limited to |x| <= 1e61 and to samples whose non-zero variances lie in [1e-120, 1e125]: the Welch-Satterthwaite formula squares s^2/n and yields DoF = NaN (and a panic in the t CDF) beyond float64 range; the property's degrees of freedom are those real samples produce",
+        "variance and standard deviation are checked when 4*n*max|x|^2 is below MaxFloat64 (the exact variance is not representable otherwise)",
+        "weighted samples are outside the property's quantifier; only strictly positive weights are generated (Sample.Mean with a leading zero weight returns NaN: Sample{Xs:[1,2],Weights:[0,1]}.Mean(); not part of this property)",
+        "the Sample.Sorted flag is a promise by the caller: only true promises are generated",
+        "for the normal distribution with |mu| >> sigma the inverse round trip and the integral of the implementation's PDF are limited by the spacing of float64 numbers around x (ulp(x)/sigma in standard units); that term is added to the 1e-9 tolerance",
+        "the adaptive integrator's own error indicator (Gauss-Kronrod 7/15 difference, conservative) is trusted; points where it gives up are labelled and skipped (never counted as agreement)",
+    ],
     units=[
-        R("dist", "B", "./internal/stats", "TestC12Dist", (4000, 4), (200000, 16)),
-        R("beta", "B", "./internal/stats", "TestC12Beta", (6000, 2), (300000, 16)),
-        R("ttest", "B", "./internal/stats", "TestC12TTest", (3000, 4), (100000, 16)),
-        R("descr", "B", "./internal/stats", "TestC12Descr", (3000, 4), (100000, 16)),
+        R("dist", "B", "./internal/stats", "TestC12Dist", (8000, 4), (60000, 16)),
+        R("beta", "B", "./internal/stats", "TestC12Beta", (8000, 2), (30000, 16)),
+        R("ttest", "B", "./internal/stats", "TestC12TTest", (3000, 5), (25000, 16)),
+        R("descr", "B", "./internal/stats", "TestC12Descr", (3000, 5), (25000, 16)),
     ],
 )
